@@ -223,6 +223,7 @@ fn judge_mem(ctx: &Ctx, st: &Stream, cuts: &[usize], mode: UpMode, caller: Calle
                         }
                         ctx.count("skipped_unspecified", 1);
                     }
+                    UpMode::Script => {}
                 }
             }
             // replies to the varlink part (before the first ack) must not depend on segmentation
